@@ -388,6 +388,14 @@ func testRegistry(rt *rapid.T, st *RunStats) {
 	}
 	if len(m.order) == max && cls["archetype-with-highest-id-at-maximum"] {
 		st.AddNonTrivial([]byte(fmt.Sprint(perm, pre, len(resM.order), st.Evaluations)))
+		if len(st.Samples) < 3 {
+			var names []string
+			for _, ti := range m.order[:8] {
+				names = append(names, regType(ti).String())
+			}
+			st.Samples = append(st.Samples, map[string]any{"mask_bits": max, "prefill": pre, "resource_prefill": preRes, "registered_component_types": len(m.order),
+				"registered_resource_types": len(resM.order), "first_types_in_registration_order": names, "classes": cls})
+		}
 	}
 }
 
